@@ -22,6 +22,27 @@ from gt import FLOAT_VECS
 
 PROP = "C02"
 
+# method-level uninterpreted functions: in the modular lemmas the callees dot / length_squared / length /
+# length_recip are replaced by ANY function of the operand bits (their own clauses are separate
+# obligations), so the caller's code and the spec see the very same value
+GUF = """
+pub mod g_{ln} {{
+    use glam::*; use crate::mk::*;
+    static mut TD: MemoV<{t}> = MemoV::new(0.0);
+    static mut TS: MemoV<{t}> = MemoV::new(0.0);
+    static mut TL: MemoV<{t}> = MemoV::new(0.0);
+    static mut TR: MemoV<{t}> = MemoV::new(0.0);
+    pub fn dot(a: {N}, b: {N}) -> {t} {{ unsafe {{ TD.get(key2(a.kwords(), b.kwords()), crate::vk::any()) }} }}
+    pub fn length_squared(a: {N}) -> {t} {{ unsafe {{ TS.get(key2(a.kwords(), [0; 4]), crate::vk::any()) }} }}
+    pub fn length(a: {N}) -> {t} {{ unsafe {{ TL.get(key2(a.kwords(), [0; 4]), crate::vk::any()) }} }}
+    pub fn length_recip(a: {N}) -> {t} {{ unsafe {{ TR.get(key2(a.kwords(), [0; 4]), crate::vk::any()) }} }}
+}}
+"""
+
+
+def extra(config):
+    return "".join(GUF.format(ln=T.lname, N=T.name, t=T.t) for T in FLOAT_VECS)
+
 
 def build(config, tier):
     backend = core.CONFIGS[config]["backend"]
@@ -82,21 +103,25 @@ def build(config, tier):
 
         clause("length", "length", "let a = mk::<{N}>(); check!(__verif::leq{w}(a.length(), {sq}(a.length_squared())), \"length == sqrt(length_squared)\");",
                "== sqrt(length_squared) with sqrt uninterpreted (shared by code and spec)")
-        clause("length_recip", "length_recip", "let a = mk::<{N}>(); check!(__verif::leq{w}(a.length_recip(), (1.0 as {t}) / {sq}(a.length_squared())), \"length_recip == 1/sqrt(..)\");",
-               "== 1 / sqrt(length_squared)")
-        clause("distance", "distance", "let a = mk::<{N}>(); let b = mk::<{N}>(); check!(__verif::leq{w}(a.distance(b), {sq}(a.distance_squared(b))), \"distance == sqrt(distance_squared)\");",
-               "== sqrt(distance_squared)")
-        clause("normalize", "normalize", "let a = mk::<{N}>(); let s = {sq}(a.length_squared()); let nz = a.normalize().to_array(); let aa = a.to_array(); let rc = (1.0 as {t}) / s;\n    check!(%s, \"normalize lanes are v/len or v*(1/len)\");"
-               % " && ".join("(__verif::leq%d(nz[%d], aa[%d] / s) || __verif::leq%d(nz[%d], aa[%d] * rc))" % (w, i_, i_, w, i_, i_) for i_ in range(n)),
-               "every lane is v/len or v*(1/len), len = sqrt(length_squared)")
-        # normalize family control contract
+        intr = T.simd and backend == "sse2"   # written with intrinsics: no callee to abstract
+        mst = lambda *fns: tuple(["sse", "uf_sqrt%d" % w] + [("glam::%s::%s" % (N, f_), "crate::g_%s::%s" % (ln, f_)) for f_ in fns])
+        clause("length_recip", "length_recip", "let a = mk::<{N}>(); check!(__verif::leq{w}(a.length_recip(), (1.0 as {t}) / a.length()), \"length_recip == 1/length\");",
+               "== 1 / length()" + ("" if intr else " (modular: length() replaced by an uninterpreted function of the operand)"), stubs=mst() if intr else mst("length"))
+        if intr:
+            clause("normalize", "normalize", "let a = mk::<{N}>(); let s = a.length(); let nz = a.normalize().to_array(); let aa = a.to_array(); let rc = (1.0 as {t}) / s;\n    check!(%s, \"normalize lanes are v/len or v*(1/len)\");"
+                   % " && ".join("(__verif::leq%d(nz[%d], aa[%d] / s) || __verif::leq%d(nz[%d], aa[%d] * rc))" % (w, i_, i_, w, i_, i_) for i_ in range(n)),
+                   "every lane is v/len or v*(1/len), len = length()")
+        else:
+            clause("normalize", "normalize", "let a = mk::<{N}>(); check!({l4}(a.normalize().to_array(), (a * a.length_recip()).to_array()), \"normalize == v * length_recip\");",
+                   "== v * length_recip() (modular: length_recip() replaced by an uninterpreted function of the operand)", stubs=mst("length_recip"))
+        # normalize family control contract (modular in length_recip)
         hd = "let a = mk::<{N}>(); let rcp = a.length_recip(); let ok = rcp.is_finite() && rcp > 0.0; let v = (a * rcp).to_array();\n    "
         clause("try_normalize", "try_normalize", hd + "check!(match a.try_normalize() {{ Some(r) => ok && {l4}(r.to_array(), v), None => !ok }}, \"try_normalize\");",
-               "None IFF !(rcp.is_finite() && rcp > 0) for the code's own reciprocal length, else Some(v * rcp)", cls="control")
+               "None IFF !(rcp.is_finite() && rcp > 0) for rcp = length_recip(), else Some(v * rcp) (modular in length_recip)", cls="control", stubs=mst("length_recip"))
         clause("normalize_or", "normalize_or", hd + "let fb = mk::<{N}>(); let r = a.normalize_or(fb); check!(if ok {{ {l4}(r.to_array(), v) }} else {{ {l4}(r.to_array(), fb.to_array()) }}, \"normalize_or\");",
-               "the fallback IFF !(rcp.is_finite() && rcp > 0), else v * rcp", cls="control")
+               "the fallback IFF !(rcp.is_finite() && rcp > 0), else v * rcp (modular in length_recip)", cls="control", stubs=mst("length_recip"))
         clause("normalize_or_zero", "normalize_or_zero", hd + "let r = a.normalize_or_zero(); check!(if ok {{ {l4}(r.to_array(), v) }} else {{ {l4}(r.to_array(), <{N}>::ZERO.to_array()) }}, \"normalize_or_zero\");",
-               "zero IFF !(rcp.is_finite() && rcp > 0), else v * rcp", cls="control")
+               "zero IFF !(rcp.is_finite() && rcp > 0), else v * rcp (modular in length_recip)", cls="control", stubs=mst("length_recip"))
         clause("normalize_and_length", "normalize_and_length",
                "let a = mk::<{N}>(); let len = a.length(); let rc2 = (1.0 as {t}) / len; let ok2 = rc2.is_finite() && rc2 > 0.0; let (r, l) = a.normalize_and_length();\n"
                "    check!(if ok2 {{ {l4}(r.to_array(), (a * rc2).to_array()) && __verif::leq{w}(l, len) }} else {{ {l4}(r.to_array(), <{N}>::X.to_array()) && l == 0.0 }}, \"normalize_and_length\");",
@@ -116,12 +141,24 @@ def build(config, tier):
         if n in (2, 3):
             body = ("let a = mk::<{N}>(); let nn = mk::<{N}>(); let eta: {t} = vk::any(); let ndi = nn.dot(a); let k = (1.0 as {t}) - eta * eta * ((1.0 as {t}) - ndi * ndi); let r = a.refract(nn, eta);\n"
                     "    check!(if k >= 0.0 {{ {l4}(r.to_array(), (eta * a - (eta * ndi + {sq}(k)) * nn).to_array()) }} else if k < 0.0 {{ __verif::leq{w}x{n}(r.to_array(), <{N}>::ZERO.to_array()) }} else {{ __verif::leq{w}x{n}(r.to_array(), <{N}>::ZERO.to_array()) }}, \"refract: Snell form when k >= 0, zero on total internal reflection\");").format(N=N, t=t, l4=l4, sq=sq, w=w, n=n)
-            obs.append(Ob("%s_refract" % pre, PROP, body, fn="%s::refract" % N, kind="lemma", solver="cvc5", stubs=["sse", "uf_sqrt%d" % w], cls="control", tier=tr,
-                          desc="%s::refract: k = 1 - eta^2 (1 - (n.i)^2); k >= 0 => eta*i - (eta*(n.i) + sqrt(k))*n, otherwise exactly zero" % N))
+            obs.append(Ob("%s_refract" % pre, PROP, body, fn="%s::refract" % N, kind="lemma", solver="cvc5", stubs=list(mst("dot")), cls="control", tier="thorough",
+                          desc="%s::refract: k = 1 - eta^2 (1 - (n.i)^2); k >= 0 => eta*i - (eta*(n.i) + sqrt(k))*n, otherwise exactly zero (modular in dot)" % N))
+            sgn = " * a.perp_dot(b).signum()" if n == 2 else ""
             body = ("let a = mk::<{N}>(); let b = mk::<{N}>(); let r = a.angle_between(b); let arg = a.dot(b) / {sq}(a.length_squared() * b.length_squared());\n"
-                    "    check!(__verif::leq{w}(r, crate::uf::acos_f{w}(arg)), \"angle_between == acos_approx(dot / sqrt(l1*l2))\");").format(N=N, sq=sq, w=w)
-            obs.append(Ob("%s_angle_between" % pre, PROP, body, fn="%s::angle_between" % N, kind="lemma", solver="cvc5", stubs=["sse", "uf_sqrt%d" % w, "uf_acos_approx%d" % w], cls="structure", tier=tr,
-                          desc="%s::angle_between == acos_approx(a.b / sqrt(|a|^2 |b|^2)); the arccos polynomial itself is uninterpreted (its accuracy is not decided)" % N))
+                    "    check!(__verif::leq{w}(r, crate::uf::acos_f{w}(arg){sgn}), \"angle_between == acos_approx(dot / sqrt(l1*l2)){sgn}\");").format(N=N, sq=sq, w=w, sgn=sgn)
+            obs.append(Ob("%s_angle_between" % pre, PROP, body, fn="%s::angle_between" % N, kind="lemma", solver="cvc5", stubs=list(mst("dot", "length_squared")) + ["uf_acos_approx%d" % w], cls="structure", tier="thorough",
+                          desc="%s::angle_between == acos_approx(a.b / sqrt(|a|^2 |b|^2))%s; the arccos polynomial itself is uninterpreted (its accuracy is not decided); modular in dot / length_squared" % (N, " times the sign of perp_dot (Vec2: signed angle_to)" if n == 2 else "")))
+            # the same two clauses on the integer lattice (all arithmetic exact, sqrt / acos uninterpreted over ALL
+            # values): SAT-decidable in seconds; the full-domain forms above are thorough-tier (cvc5, slow)
+            lat = "unsafe {{ crate::uf::SQRT%d_MODE = crate::uf::POW2; crate::uf::ACOS%d_MODE = crate::uf::LAT; }} let ai = sp::lat%d(2); let bi = sp::lat%d(2); let a = %s; let b = %s; " % (w, w, n, n, vc("ai"), vc("bi"))
+            body = (lat + "let nn = b; let e: i8 = vk::any(); vk::assume(e >= -2 && e <= 2); let eta = e as {t}; let ndi = nn.dot(a); let k = (1.0 as {t}) - eta * eta * ((1.0 as {t}) - ndi * ndi); let r = a.refract(nn, eta);\n"
+                    "    check!(if k >= 0.0 {{ {l4}(r.to_array(), (eta * a - (eta * ndi + {sq}(k)) * nn).to_array()) }} else {{ {l4}(r.to_array(), <{N}>::ZERO.to_array()) }}, \"refract on the lattice\");").format(N=N, t=t, l4=l4, sq=sq)
+            obs.append(Ob("%s_refract_lat" % pre, PROP, body, fn="%s::refract" % N, kind="lemma", solver="cadical", stubs=["sse", "uf_sqrt%d" % w], cls="lattice", tier=tr,
+                          desc="%s::refract on the integer lattice [-2,2] (eta too): Snell form with the right operands when k >= 0, exactly zero otherwise; sqrt an uninterpreted function with values in {1,2,4}" % N))
+            body = (lat + "let r = a.angle_between(b); let arg = a.dot(b) / {sq}(a.length_squared() * b.length_squared());\n"
+                    "    check!(__verif::leq{w}(r, crate::uf::acos_f{w}(arg){sgn}), \"angle_between on the lattice\");").format(sq=sq, w=w, sgn=sgn)
+            obs.append(Ob("%s_angle_between_lat" % pre, PROP, body, fn="%s::angle_between" % N, kind="lemma", solver="cadical", stubs=["sse", "uf_sqrt%d" % w, "uf_acos_approx%d" % w], cls="lattice", tier=tr,
+                          desc="%s::angle_between on the integer lattice [-2,2]: acos_approx(a.b / sqrt(|a|^2 |b|^2))%s with sqrt / the arccos polynomial uninterpreted functions with values in {1,2,4} / {-1,0,1}" % (N, " * sign(perp_dot)" if n == 2 else "")))
     if config == "sse2":
         obs.append(Ob("c02_sse2_canary_cross_lane", PROP,
                       'let a = mk::<Vec3A>(); let b = mk::<Vec3A>(); let r = a.cross(b).to_array(); let (x, y) = (a.to_array(), b.to_array()); check!(__verif::leq32(r[0], x[1] * y[1] - x[2] * y[1]), "cross.x with b.y for b.z");',
@@ -135,8 +172,9 @@ def build(config, tier):
 def run(s):
     for cfg in ("sse2", "scalar"):
         contracts, obs = build(cfg, s.tier)
-        s.run_config(cfg, contracts, obs)
+        s.run_config(cfg, contracts, obs, extra_rust=extra(cfg))
     s.assumptions += [
+        "modular lemmas: where a clause is marked 'modular in f', the callee f (dot, length_squared, length, length_recip) is replaced by an arbitrary function of the operand bits in BOTH code and spec; f's own clause is a separate obligation of this check",
         "A3: the result is within a few eps * sum of term magnitudes of the real value of the verified expression tree (standard rounding analysis, not machine-checked)",
         "A5: sqrt and acos_approx are uninterpreted functions shared by code and spec; std_math forwards to the std primitives (token-level)",
         "angle_between accuracy (polynomial arccos), 'checked forms never return a non-finite vector' and length == 1 within a few eps after normalize are NOT decided",
